@@ -28,6 +28,9 @@ fn terms(tier: Tier) -> Vec<T> {
     // ... below a parent that stands between it and a binder whose rule asks whether the bound slot is still mentioned
     t.push(bind1("sum", 100, node1("neg", node2("mul", v(100), T { op: "0", args: vec![] }))));
     t.push(bind1("sum", 100, node2("add", node2("mul", v(100), T { op: "0", args: vec![] }), v(0))));
+    // four slots: the class learns (01)(23)-like symmetries one by one (a stabiliser chain of depth two)
+    t.push(node2("add", node2("add", v(0), v(1)), node2("add", v(2), v(3))));
+    t.push(node2("mul", node2("add", v(0), v(1)), node2("add", v(2), v(3))));
     t.extend(start_terms(if tier == Tier::Quick { 2 } else { 3 }));
     t
 }
@@ -54,7 +57,7 @@ fn rule_sets() -> Vec<Vec<usize>> {
 }
 
 /// independent fingerprint of the observable state (does not use EGraph::progress)
-fn fingerprint(eg: &EGraph<Ar>, known: &[AppliedId]) -> String {
+fn fingerprint<N: Analysis<Ar>>(eg: &EGraph<Ar, N>, known: &[AppliedId]) -> String {
     let mut per: Vec<String> = Vec::new();
     for i in eg.ids() {
         let sl: Vec<Slot> = eg.slots(i).iter().copied().collect();
@@ -76,20 +79,20 @@ fn fingerprint(eg: &EGraph<Ar>, known: &[AppliedId]) -> String {
 
 type Fail = (String, String, String);
 
-fn mk_rules(idx: &[usize]) -> Vec<Rewrite<Ar>> {
+fn mk_rules<N: Analysis<Ar> + 'static>(idx: &[usize]) -> Vec<Rewrite<Ar, N>> {
     let pool = rule_pool();
     idx.iter().map(|i| mk_rule(&pool[*i])).collect()
 }
 
 /// segment 0: apply_rewrites returns false only if nothing observable changed
-fn run_apply(start: &T, rules_idx: &[usize], iters: usize) -> (Vec<Fail>, u64, u64, Vec<u64>, u64) {
+fn run_apply<N: Analysis<Ar> + Default + 'static>(start: &T, rules_idx: &[usize], iters: usize) -> (Vec<Fail>, u64, u64, Vec<u64>, u64) {
     let mut fails = Vec::new();
     let mut evals = 0u64;
     let mut goals = 0u64;
     let mut fps = Vec::new();
     let mut transitions = 0;
-    let mut eg = EGraph::<Ar>::default();
-    let rules = mk_rules(rules_idx);
+    let mut eg = EGraph::<Ar, N>::default();
+    let rules = mk_rules::<N>(rules_idx);
     let root = eg.add_expr(ar_recexpr(start));
     let mut known: Vec<AppliedId> = vec![root.clone()];
     for it in 0..iters {
@@ -165,6 +168,11 @@ fn cfgs() -> Vec<Cfg> {
     v
 }
 
+/// configurations of the Runner segment that is run with an analysis attached
+fn analysis_cfgs() -> Vec<Cfg> {
+    cfgs().into_iter().filter(|c| c.hook == 0 && !c.time_zero && c.iter_limit >= 2 && c.node_limit >= 10).collect()
+}
+
 fn eqsat_cfgs() -> Vec<Cfg> {
     // run_eqsat has no node limit: the configurations with node_limit == 10_000 and an ordinary hook only
     let mut v: Vec<Cfg> = cfgs().into_iter().filter(|c| c.node_limit == 10_000 && c.hook < 6).collect();
@@ -175,7 +183,7 @@ fn eqsat_cfgs() -> Vec<Cfg> {
 const DELAYED_LIMIT_MS: u64 = 8;
 
 /// after a run stopped as Saturated: one more application of every rule changes nothing
-fn check_saturated(eg: &mut EGraph<Ar>, rules_idx: &[usize], ctx: &str, start: &RecExpr<Ar>, fails: &mut Vec<Fail>, evals: &mut u64) {
+fn check_saturated<N: Analysis<Ar> + 'static>(eg: &mut EGraph<Ar, N>, rules_idx: &[usize], ctx: &str, start: &RecExpr<Ar>, fails: &mut Vec<Fail>, evals: &mut u64) {
     let known: Vec<AppliedId> = eg.ids().iter().map(|i| eg.mk_identity_applied_id(*i)).collect();
     // both sides of every match are already equal (read-only, for right sides without substitution brackets / new binders)
     let pool = rule_pool();
@@ -234,7 +242,7 @@ fn check_saturated(eg: &mut EGraph<Ar>, rules_idx: &[usize], ctx: &str, start: &
     }
 }
 
-fn inst(eg: &EGraph<Ar>, pat: &Pattern<Ar>, subst: &Subst) -> Option<AppliedId> {
+fn inst<N: Analysis<Ar>>(eg: &EGraph<Ar, N>, pat: &Pattern<Ar>, subst: &Subst) -> Option<AppliedId> {
     match pat {
         Pattern::ENode(n, ch) => {
             let mut n = n.clone();
@@ -253,12 +261,12 @@ fn inst(eg: &EGraph<Ar>, pat: &Pattern<Ar>, subst: &Subst) -> Option<AppliedId> 
 }
 
 /// segment 1: Runner::run; segment 2: run_eqsat
-fn run_runner(start: &T, rules_idx: &[usize], c: Cfg) -> (Vec<Fail>, u64, u64, Vec<u64>, u64) {
+fn run_runner<N: Analysis<Ar> + Default + 'static>(start: &T, rules_idx: &[usize], c: Cfg) -> (Vec<Fail>, u64, u64, Vec<u64>, u64) {
     let mut fails = Vec::new();
     let mut evals = 0u64;
     let mut goals = 0u64;
     let ctx = format!("[Runner iter_limit={} node_limit={} time_limit={} hook={}]", c.iter_limit, c.node_limit, if c.time_zero { "0" } else { "2s" }, c.hook);
-    let rules = mk_rules(rules_idx);
+    let rules = mk_rules::<N>(rules_idx);
     let re = ar_recexpr(start);
     let hook_fired = std::rc::Rc::new(std::cell::Cell::new(false));
     let hf = hook_fired.clone();
@@ -272,7 +280,7 @@ fn run_runner(start: &T, rules_idx: &[usize], c: Cfg) -> (Vec<Fail>, u64, u64, V
     let run_started = run_started2;
     let rs_outer = run_started.clone();
     let r = catch(|| {
-        let mut runner: Runner<Ar, (), (), String> = Runner::new(()).with_expr(&re).with_iter_limit(c.iter_limit).with_node_limit(c.node_limit).with_time_limit(if c.time_zero { Duration::ZERO } else if hookno == 6 { Duration::from_millis(DELAYED_LIMIT_MS) } else { Duration::from_secs(GENEROUS_TIME_LIMIT_S) });
+        let mut runner: Runner<Ar, N, (), String> = Runner::new(N::default()).with_expr(&re).with_iter_limit(c.iter_limit).with_node_limit(c.node_limit).with_time_limit(if c.time_zero { Duration::ZERO } else if hookno == 6 { Duration::from_millis(DELAYED_LIMIT_MS) } else { Duration::from_secs(GENEROUS_TIME_LIMIT_S) });
         if hookno == 6 {
             std::thread::sleep(Duration::from_millis(12));
             run_started.set(Some(std::time::Instant::now()));
@@ -280,7 +288,7 @@ fn run_runner(start: &T, rules_idx: &[usize], c: Cfg) -> (Vec<Fail>, u64, u64, V
         if hookno == 7 {
             let sh = shrunk.clone();
             let lim = c.node_limit;
-            runner = runner.with_hook(move |r: &mut Runner<Ar, (), (), String>| {
+            runner = runner.with_hook(move |r: &mut Runner<Ar, N, (), String>| {
                 let before = r.egraph.total_number_of_nodes();
                 let mut all: Vec<Id> = r.egraph.ids();
                 all.sort();
@@ -298,7 +306,7 @@ fn run_runner(start: &T, rules_idx: &[usize], c: Cfg) -> (Vec<Fail>, u64, u64, V
             });
         }
         if hookno > 0 && hookno < 6 {
-            runner = runner.with_hook(move |r: &mut Runner<Ar, (), (), String>| {
+            runner = runner.with_hook(move |r: &mut Runner<Ar, N, (), String>| {
                 cl.set(cl.get() + 1);
                 if hookno >= 4 {
                     // a hook that changes the e-graph: the report must still describe the final state
@@ -490,6 +498,8 @@ impl Prop for SaturateProp {
             Seg { name: "apply_rewrites: terms x rule-sets".into(), count: nt * nr, what: format!("one index = one of {nt} start terms x one of {nr} rule sets; up to 5 calls of apply_rewrites, independent fingerprint before/after each") },
             Seg { name: "Runner::run: terms x rule-sets x limits x hooks".into(), count: nt * nr * nc, what: format!("one index = start term x rule set x one of {nc} configurations (iter_limit 0/1/2/5, node_limit 1/10/10000, time_limit 0/max, hook none/fail@1/fail@2/fail-at-8-nodes/mutating/mutating+fail@2; a delayed start; a hook that shrinks the e-graph by unions under node limits 3..12)") },
             Seg { name: "run_eqsat: terms x rule-sets x limits x hooks".into(), count: nt * nr * eqsat_cfgs().len() as u64, what: "one index = start term x rule set x configuration (iter_limit, time_limit 0/max, hook) for run_eqsat".into() },
+            Seg { name: "apply_rewrites with the min-size analysis attached: terms x rule-sets".into(), count: nt * nr, what: "as the first segment, on an e-graph with a non-unit analysis (the rebuild work list then carries analysis-only entries next to full ones)".into() },
+            Seg { name: "Runner::run with the min-size analysis attached: terms x rule-sets x limits".into(), count: nt * nr * analysis_cfgs().len() as u64, what: "as the second segment with the analysis attached; the hook-free configurations with iter_limit 2/5 and node_limit 10/10000".into() },
         ]
     }
     fn replay_exempt(&self, f: &Failure) -> bool {
@@ -505,7 +515,7 @@ impl Prop for SaturateProp {
         vec!["stop_saturated", "stop_iteration_limit", "stop_node_limit", "stop_time_limit", "stop_other_hook", "apply_rewrites_false_seen", "change_without_new_nodes", "hook_shrank_the_graph_from_above_the_node_limit_to_within_it"]
     }
     fn rule(&self) -> String {
-        "Start terms (binder-heavy specials, three-slot terms whose class gains symmetries stepwise, all terms of size <=2 (thorough 3)) x rule sets (each single rule of the model-valid rule pool, 8 chosen pairs/triples, the full pool, the empty set). (1) apply_rewrites up to 5 times: whenever it returns false an independent fingerprint (node count, per-class slots / e-nodes / symmetry count by brute-force eq over all permutations, canonical form of every known invocation) taken before must equal the one taken after. (2) Runner::run and (3) run_eqsat under every combination of iter_limit 0/1/2/5, node_limit 1/10/10000, time_limit 0 / 2 s (far above what any enumerated run needs; the harness clock brackets the call) and hooks none / fail at call 1 / fail at call 2 / fail at 8 nodes / insert a new term on every call / insert and fail at call 2 / union neighbouring classes on every call (the e-graph shrinks; node limits 3..12): report.egraph_nodes equals the e-graph's, iterations <= iter_limit+2, the stop reason is true of the final state (limit really exceeded, hook really failed, TimeLimit only with limit 0 or when the call really lasted that long), and after Saturated one more application of all rules changes nothing and every match of every rule already has equal sides; the same once more after the start term was inserted a second time (it is represented already, so the e-graph denotes what it denoted; judged only when that insertion adds no class): saturation is about the represented terms, not about work the e-graph has put off. A run that does not return within 30 s (each takes well under a millisecond when the property holds) or takes the worker process down is a violation (the loop must end within the iteration bound plus a constant). Non-trivial = runs, distinct states = (reason, iterations, nodes).".into()
+        "Start terms (binder-heavy specials, three-slot terms whose class gains symmetries stepwise, all terms of size <=2 (thorough 3)) x rule sets (each single rule of the model-valid rule pool, 8 chosen pairs/triples, the full pool, the empty set). (1) apply_rewrites up to 5 times: whenever it returns false an independent fingerprint (node count, per-class slots / e-nodes / symmetry count by brute-force eq over all permutations, canonical form of every known invocation) taken before must equal the one taken after. (1) and (2) also on e-graphs with the min-size analysis attached (hook-free configurations). (2) Runner::run and (3) run_eqsat under every combination of iter_limit 0/1/2/5, node_limit 1/10/10000, time_limit 0 / 2 s (far above what any enumerated run needs; the harness clock brackets the call) and hooks none / fail at call 1 / fail at call 2 / fail at 8 nodes / insert a new term on every call / insert and fail at call 2 / union neighbouring classes on every call (the e-graph shrinks; node limits 3..12): report.egraph_nodes equals the e-graph's, iterations <= iter_limit+2, the stop reason is true of the final state (limit really exceeded, hook really failed, TimeLimit only with limit 0 or when the call really lasted that long), and after Saturated one more application of all rules changes nothing and every match of every rule already has equal sides; the same once more after the start term was inserted a second time (it is represented already, so the e-graph denotes what it denoted; judged only when that insertion adds no class): saturation is about the represented terms, not about work the e-graph has put off. A run that does not return within 30 s (each takes well under a millisecond when the property holds) or takes the worker process down is a violation (the loop must end within the iteration bound plus a constant). Non-trivial = runs, distinct states = (reason, iterations, nodes).".into()
     }
     fn assumptions(&self) -> Vec<String> {
         vec!["time limits are only 0 or unbounded, the two values whose outcome does not depend on the wall clock".into()]
@@ -519,7 +529,7 @@ impl Prop for SaturateProp {
         let t = (idx % ts.len() as u64) as usize;
         let r = ((idx / ts.len() as u64) % nr) as usize;
         let c = idx / (ts.len() as u64 * nr);
-        let api = ["apply_rewrites", "Runner::run", "run_eqsat"][seg];
+        let api = ["apply_rewrites", "Runner::run", "run_eqsat", "apply_rewrites (min-size analysis)", "Runner::run (min-size analysis)"][seg];
         json!({"start": ts[t].to_sexp(), "rules": rs[r].iter().map(|i| pool[*i].name).collect::<Vec<_>>(), "config_index": c, "api": api})
     }
     fn exec(&self, tier: Tier, _cfg: &str, seg: usize, idx: u64) -> Exec {
@@ -543,10 +553,12 @@ impl Prop for SaturateProp {
             }
             c
         };
-        let (c1, c2) = (if seg == 1 { Some(cap(cfgs()[ci])) } else { None }, if seg == 2 { Some(cap(eqsat_cfgs()[ci])) } else { None });
+        let (c1, c2) = (if seg == 1 { Some(cap(cfgs()[ci])) } else if seg == 4 { Some(cap(analysis_cfgs()[ci])) } else { None }, if seg == 2 { Some(cap(eqsat_cfgs()[ci])) } else { None });
         let res = fresh_thread(move || match seg {
-            0 => run_apply(&start, &rules, 5),
-            1 => run_runner(&start, &rules, c1.unwrap()),
+            0 => run_apply::<()>(&start, &rules, 5),
+            1 => run_runner::<()>(&start, &rules, c1.unwrap()),
+            3 => run_apply::<crate::props::analysis::ArMinSize>(&start, &rules, 5),
+            4 => run_runner::<crate::props::analysis::ArMinSize>(&start, &rules, c1.unwrap()),
             _ => {
                 run_eqsat_cfg(&start, &rules, c2.unwrap())
             }
